@@ -351,6 +351,15 @@ func (b *Broker) handleConn(conn net.Conn) {
 	b.Lock()
 	if oldClient, ok := b.clients[cid]; ok {
 		logger.SpanDebugf(nil, "client %v take over by new client with same name", oldClient.info.cid)
+		// the old connection must not clean up the session, the topics and
+		// the stored session (all kept by client id) any more, so remove its
+		// subscriptions here, the new connection subscribes again below if
+		// it continues the session.
+		atomic.StoreInt32(&oldClient.takenOver, 1)
+		if oldClient.session != nil {
+			topics, _, _ := oldClient.session.allSubscribes()
+			b.topicMgr.unsubscribe(topics, cid)
+		}
 		go oldClient.close()
 
 	} else if b.spec.MaxAllowedConnection > 0 {
